@@ -10,9 +10,9 @@ import icontract
 import torch
 import torchtt
 
-from rt_common import (all_permutations, case_id, clause, contract, dense, dtype_of, fro, is_op_shape,
-                       norm_shape, ordered_factorisations, rand_tt, seed_all, shape_of, with_singletons,
-                       within)
+from rt_common import (all_permutations, case_id, clause, contract, dense, dtype_of, fro, inflate_tt, is_op_shape,
+                       norm_shape, ordered_factorisations, rand_tt, scale_tag, scale_tt, seed_all, shape_of,
+                       with_singletons, within)
 
 DEFAULT_EPS = {"reshape": 1e-16, "permute": 1e-12, "to_qtt": 1e-12, "qtt_roundtrip": 1e-12}
 FLOOR = {"float64": 1e-10, "complex128": 1e-10, "float32": 1e-4}
@@ -153,6 +153,10 @@ def build_operand(a):
         y = rand_tt(torchtt, shape, a["rank"] + 2, dt)
         nx, ny = fro(dense(x)), fro(dense(y))
         x = x + (a["noise"] * nx / ny) * y
+    # round 2: exact value stored with redundant ranks, operands whose norm (or whose cores' norms) are far from 1
+    if a.get("inflate"):
+        x = inflate_tt(torchtt, x)
+    x = scale_tt(torchtt, x, a.get("scale"))
     return x
 
 
@@ -181,7 +185,83 @@ def _mk(op, shape, rank, dtype, eps, seed, noise=0.0, **extra):
                       ("to=%s" % str(tag).replace(" ", "")) if tag != "" else "std",
                       "r=%d" % rank, dtype, "eps=%s" % ("default" if eps is None else "%g" % eps),
                       "noise=%g" % noise, "seed=%d" % seed)
+    if extra.get("scale") or extra.get("inflate"):
+        a["id"] += "." + scale_tag(extra.get("scale")) + (".inflated" if extra.get("inflate") else "")
     return a
+
+
+def scale_specs(d, quick=True):
+    """operand scalings: one core (first / middle / last) times {1e-6,1e-3,1e3,1e6}, spread over all cores, alternating."""
+    specs = [{"mode": "one", "factor": f, "core": 0} for f in (1e-6, 1e-3, 1e3, 1e6)]
+    specs += [{"mode": "one", "factor": f, "core": d - 1} for f in (1e-6, 1e6)]
+    if d >= 3:
+        specs += [{"mode": "one", "factor": f, "core": d // 2} for f in (1e-3, 1e3)]
+    specs += [{"mode": "spread", "factor": f} for f in (1e-6, 1e6)]
+    specs += [{"mode": "alt", "p": 3}, {"mode": "alt", "p": -3}]
+    if not quick:
+        specs += [{"mode": "one", "factor": f, "core": 1 % d} for f in (1e-6, 1e-3, 1e3, 1e6)]
+        specs += [{"mode": "spread", "factor": f} for f in (-1e-3, 1e3)]
+        specs += [{"mode": "alt", "p": 6}, {"mode": "alt", "p": -6}]
+    return specs
+
+
+def scaled_cases(tier, seed):
+    """Round 2 family: norms far from 1, inflated ranks, swaps away from the first position, eps in {1e-8,1e-4,1e-2}."""
+    quick = tier == "quick"
+    cases = []
+    eps_list = [1e-8, 1e-4, 1e-2]
+    seeds = [seed] if quick else [seed, seed + 1]
+
+    def variants(op, shape, dtype, s, **extra):
+        d = len(shape)
+        for spec in scale_specs(d, quick):
+            for eps in eps_list:
+                for inflate in (0, 1):
+                    noises = [0.0] if eps < 1e-4 else [0.0, eps / 2.0]
+                    for noise in noises:
+                        if inflate and noise and quick:
+                            continue
+                        cases.append(_mk(op, shape, 2, dtype, eps, s, noise, scale=spec, inflate=inflate, **extra))
+
+    # permute: orders 3..5, permutations whose bubble-sort swaps happen (also / only) away from position 0
+    perm_sets = {
+        3: [[0, 2, 1], [2, 1, 0], [1, 2, 0]],
+        4: [[0, 1, 3, 2], [0, 2, 1, 3], [3, 2, 1, 0], [1, 0, 3, 2]],
+        5: [[0, 1, 2, 4, 3], [0, 3, 2, 1, 4], [4, 3, 2, 1, 0]],
+    }
+    p_shapes = [[2, 3, 4], [3, 2, 2, 3], [2, 2, 3, 2, 2], [(2, 2), (3, 1), (1, 2)], [(2, 2), (2, 3), (3, 2), (2, 2)]]
+    if not quick:
+        p_shapes += [[3, 1, 2], [4, 3, 2, 2], [(2, 2), (2, 1), (1, 2), (2, 2), (2, 2)]]
+    for shape in p_shapes:
+        for dims in perm_sets[len(shape)]:
+            for s in seeds:
+                variants("permute", shape, "float64", s, dims=dims)
+            if not quick or dims == perm_sets[len(shape)][0]:
+                variants("permute", shape, "complex128", seeds[0], dims=dims)
+
+    # reshape with eps != default
+    r_pairs = [([12], [3, 4]), ([4, 3], [2, 6]), ([4, 3], [2, 2, 3]), ([2, 3, 2], [6, 2]), ([2, 3, 2], [4, 3]),
+               ([2, 1, 3, 2], [3, 4]), ([(2, 3), (2, 2)], [(4, 2), (1, 3)]), ([(2, 3), (2, 2)], [(2, 2), (2, 3)]),
+               ([(4, 4)], [(2, 2), (2, 2)])]
+    if not quick:
+        r_pairs += [([2, 2, 3, 2], [4, 6]), ([24], [2, 3, 4]), ([(2, 2), (2, 2), (2, 2)], [(4, 2), (2, 4)])]
+    for shape, target in r_pairs:
+        target = [list(t) if isinstance(t, tuple) else t for t in target]
+        for s in seeds:
+            variants("reshape", shape, "float64", s, target=target)
+        if not quick:
+            variants("reshape", shape, "complex128", seeds[0], target=target)
+
+    # to_qtt(eps)
+    q_shapes = [[16], [8, 4], [4, 8, 2], [(4, 4), (2, 2)], [(8, 8)]]
+    if not quick:
+        q_shapes += [[4, 4, 4, 4], [(4, 4), (4, 4), (2, 2)]]
+    for shape in q_shapes:
+        for s in seeds:
+            variants("to_qtt", shape, "float64", s)
+        if not quick:
+            variants("to_qtt", shape, "complex128", seeds[0])
+    return cases
 
 
 def tuples_with_product(total, length):
@@ -322,6 +402,11 @@ def enumerate_cases(tier, seed):
         for dtype in dtypes:
             for s in seeds:
                 cases.append(_mk("qtt_roundtrip", src, 2 if quick else 3, dtype, None, s))
+    seen = {c["id"] for c in cases}
+    for c in scaled_cases(tier, seed):
+        if c["id"] not in seen:       # order-1 operands: 'first' and 'last' core coincide
+            seen.add(c["id"])
+            cases.append(c)
     return cases
 
 
@@ -339,10 +424,21 @@ def bound(tier, seed):
                 "cores of rank 2 (scaled), dtypes float64 and complex128, eps in {library default, 1e-8, 1e-2} and for "
                 "eps=1e-2 additionally an operand perturbed by a rank-4 term of relative size eps/2; seeds {seed, seed+1} "
                 "with seed=%d. Contract: exact requested .N/.M, same dtype, ||dense(result)-dense_oracle|| <= "
-                "4*(1+sqrt(max rank x))*eps*||x|| + 1e-10*||x|| (default eps: reshape 1e-16, permute/to_qtt 1e-12)." % seed)
+                "4*(1+sqrt(max rank x))*eps*||x|| + 1e-10*||x|| (default eps: reshape 1e-16, permute/to_qtt 1e-12). "
+                "ROUND-2 FAMILY (operands far from norm 1): permute of tensors {[2,3,4],[3,2,2,3],[2,2,3,2,2]} and operators "
+                "{[(2,2),(3,1),(1,2)],[(2,2),(2,3),(3,2),(2,2)]} with permutations whose swaps happen away from position 0 "
+                "(order 3: [0,2,1],[2,1,0],[1,2,0]; order 4: [0,1,3,2],[0,2,1,3],[3,2,1,0],[1,0,3,2]; order 5: [0,1,2,4,3],"
+                "[0,3,2,1,4],[4,3,2,1,0]); reshape pairs {[12]->[3,4],[4,3]->[2,6],[4,3]->[2,2,3],[2,3,2]->[6,2],[2,3,2]->[4,3],"
+                "[2,1,3,2]->[3,4],[(2,3),(2,2)]->[(4,2),(1,3)],[(2,3),(2,2)]->[(2,2),(2,3)],[(4,4)]->[(2,2),(2,2)]}; to_qtt of "
+                "{[16],[8,4],[4,8,2],[(4,4),(2,2)],[(8,8)]}; each with eps in {1e-8,1e-4,1e-2} x scaling in {one core (first, last) "
+                "x {1e-6,1e-3,1e3,1e6}/{1e-6,1e6}, middle core x {1e-3,1e3}, factor {1e-6,1e6} spread evenly over the cores, core k "
+                "x 10**(+-3*(-1)**k)} x {minimal storage, the same value stored with doubled redundant ranks (x/2 + x/2 block "
+                "cores)} x {clean, perturbed by a rank-4 term of relative size eps/2 for eps >= 1e-4}; float64 (+ complex128 for "
+                "one permutation per shape); seed %d. Same contract (everything relative to ||x||)." % (seed, seed))
     return ("C10 thorough: as quick but source orders 1..5 (27 tensor shapes, element counts 1..32), targets = every ordered "
             "factorisation with up to 2 singleton modes inserted (<=6 modes), ranks {1,3}; operator sources up to order 4 with "
             "all targets of <=3 modes; permute: all permutations up to 4 modes and 12 sampled permutations for 5 and 6 modes, "
             "rank 3; QTT shapes up to 64 / order 5; eps in {default,1e-12,1e-8,1e-4,1e-2,1e-1} (+ perturbed operands for "
             "eps>=1e-4); dtypes float64, complex128 and (reshape of 12 elements) float32 with floor 1e-4; seeds "
-            "{seed..seed+2}, seed=%d. Same contract as quick." % seed)
+            "{seed..seed+2}, seed=%d. Same contract as quick. Round-2 family as in quick plus more shapes, scalings (second core, "
+            "negative spread factors, alternating 10**(+-6)), complex128 everywhere, 2 seeds." % seed)
